@@ -291,6 +291,34 @@ def status_mapping(rec, F):
         rec.anchor_lost("F4.status", "Exit native (found %d)" % len(ex))
 
 
+def hook_exit(rec, F):
+    R = rec.rule("F4.hook-exit", "an exit() reached while native code is calling back into Laythe is propagated as LyError::Exit, like call_native does, not turned into an internal error")
+    fn = H(F, "to_call_result")
+    if fn is None:
+        rec.anchor_lost("F4.hook-exit", "Vm::to_call_result")
+        return
+    sw = None
+    for b in sorted(fn.reachable):
+        sv = sem.switch_variants(F, fn, b)
+        if sv and sv[0].endswith("ExecutionResult"):
+            sw = (b, sv)
+    if sw is None:
+        rec.anchor_lost("F4.hook-exit", "ExecutionResult switch in to_call_result")
+        return
+    from .f5_trace import arm_region
+    b, sv = sw
+    for v, dst in fn.blocks[b]["t"]["targets"]:
+        if sv[1].get(v) != "Exit":
+            continue
+        reg = arm_region(fn, b, dst) | {dst}
+        panics = [t for bi, t in fn.calls() if bi in reg and lastseg(t["f"]) == "internal_error"]
+        exits = [s for bi, si, s in fn.stmts() if bi in reg and s["r"]["k"] == "agg" and s["r"]["adt"].endswith("LyError::Exit")]
+        ok = bool(exits) and not panics
+        rec.inst(R, "to_call_result: Exit => Call::Err(LyError::Exit)", ok=ok, loc=fn.loc)
+        if not ok:
+            rec.finding(R, "F4.hook-exit/to_call_result", "to_call_result turns ExecutionResult::Exit into internal_error: exit(n) inside a callback run by a native (iter.each, map, reduce, ...) is a host panic instead of ending the program with status n", loc=fn.loc, fn=fn.path)
+
+
 def ip_minus_one(rec, F):
     R = rec.rule("F10.line", "both ip->line translations (print_error traceback, error_backtrace) subtract one from the return-address offset before get_line")
     n = 0
@@ -578,4 +606,5 @@ def run_c17(rec, F):
 
 def run_c18(rec, F):
     status_mapping(rec, F)
+    hook_exit(rec, F)
     ip_minus_one(rec, F)
